@@ -175,6 +175,7 @@ pub fn check_type(
     decl: (Vec<ResourceId>, Vec<ResourceId>),
     fetch: &dyn Fn(&World, &mut dyn FnMut()),
     setup: &dyn Fn(&mut World),
+    setup_dyn: &dyn Fn(&mut World),
 ) {
     rep.types += 1;
     if e.reads.len() + e.writes.len() >= 2 {
@@ -316,7 +317,10 @@ pub fn check_type(
             return;
         }
     }
-    // 3. setup on a partially filled world
+    // 3. setup on a partially filled world, through both routes: the type's own `SystemData::setup`
+    // and `DynamicSystemData::setup` with the static accessor (what `System::setup`, the dispatchers
+    // and ParSeq call)
+    for (route, setup) in [("SystemData::setup", setup), ("DynamicSystemData::setup with the static accessor", setup_dyn)] {
     for &mask in e.masks.iter().take(3) {
         let present = |n: usize| mask & (1u64 << n) != 0;
         let mut world = World::empty();
@@ -333,12 +337,12 @@ pub fn check_type(
         }
         HLOG.with(|l| l.borrow_mut().clear());
         if catch_unwind(AssertUnwindSafe(|| setup(&mut world))).is_err() {
-            rep.fail(e, format!("presence mask {:#x}: setup panicked", mask));
+            rep.fail(e, format!("presence mask {:#x}: setup ({}) panicked", mask, route));
             return;
         }
         let log = HLOG.with(|l| l.borrow().clone());
         if sorted(&log) != sorted(e.handlers) {
-            rep.fail(e, format!("setup called the custom handlers {:?}, the members with a custom handler are {:?} (each exactly once)", log, e.handlers));
+            rep.fail(e, format!("presence mask {:#x}: setup ({}) called the custom handlers {:?}, the members with a custom handler are {:?} (each exactly once)", mask, route, log, e.handlers));
             return;
         }
         for n in 0..NR {
@@ -361,5 +365,6 @@ pub fn check_type(
                 return;
             }
         }
+    }
     }
 }
